@@ -317,7 +317,9 @@ class Repo:
         self.comprehended = loops_to_comprehensions(trees)  # list-building loops: the comprehension
         from .inline import continue_guards_to_conditionals
         self.unguarded = continue_guards_to_conditionals(trees)  # `if c: continue` + rest: the conditional block
-        touched = {c.split(":")[0] for _, c, _ in self.inlined} | {c.split(":")[0] for c, _ in self.unrolled + self.comprehended + self.unguarded}
+        from .inline import lower_conditional_values
+        self.lowered = lower_conditional_values(trees)  # `return a if c else b`: the if / else statement
+        touched = {c.split(":")[0] for _, c, _ in self.inlined} | {c.split(":")[0] for c, _ in self.unrolled + self.comprehended + self.unguarded + self.lowered}
         for modname, (path, rel, src, tree) in parsed.items():
             if modname in touched:
                 # positions are used to order constructs: give the normalised module consistent ones (the original file and line of
